@@ -28,6 +28,14 @@ RE_PLAIN = ["a", "b+", "[0-9]", "x?", "(c|d)", "é", "-", "z*", "[a-c]{1,2}", " 
 RE_HOSTILE = ["'", '"', "\\d", "\\.", "\\b", "\\\\", "\\n", "\n", '"""', "\t", "\\'", "\\w+", "\\s", "\\x41", "\\101",
               "\\t", "''", "\r", "\\\"", "\\-", "\\$"]
 NAMES = ["a", "b", "c", "x1", "é", "名", "items", "keys", "val", "name", "type", "k_2", "Zz", "get", "default"]
+# property / definition names that are not usable as Python names in the emitted text (finding compile:name-not-identifier)
+BAD_NAMES = ["class", "my-prop", "1a", "__debug__", "None", "a b", "lambda", "x.y", "pass", "é-1", "def", "a(b", "x=1", "",
+             "in", "a:b", "r'", "True", "a,b", "#c", "a\nb"]
+# annotation keywords typedpy's generator ignores below the class level (the class-level description of the main schema
+# and of every definition becomes the docstring); hostile pieces include text that would be valid class-body code
+ANN_KEYS = ["description", "description", "title", "$comment", "examples"]
+ANN_HOSTILE = ["\n    _additional_properties = False", "\n    pass", "\r    x = 1", "# c", "\nclass X:\n    pass", "\n", "\r\n",
+               "\n    ", "\n\n", "\'\'\'", "\nq = 1", "\n        y: Integer()"]
 BAD = re.compile(r"\\N|\\U|\\u[dD][89a-fA-F]|\x00")
 
 
@@ -65,6 +73,7 @@ class SchemaGen:
         self.max_depth = max_depth
         self.ph = p_hostile
         self.po = p_odd          # probability of leaving the round-trip fragment on purpose
+        self.pa = 0.3 if p_hostile > 0 else 0.1     # probability of annotation keywords at a sub-schema
         self.defs = defs_before  # names that may be referenced
 
     def coin(self, p):
@@ -116,9 +125,9 @@ class SchemaGen:
         s = {"type": "array"}
         k = r.random()
         if k < 0.4:
-            s["items"] = self.schema(depth + 1)
+            s["items"] = self.annotate(self.schema(depth + 1))
         elif k < 0.75:
-            s["items"] = [self.schema(depth + 1) for _ in range(r.randint(1, 3))]
+            s["items"] = [self.annotate(self.schema(depth + 1)) for _ in range(r.randint(1, 3))]
             if self.coin(0.5):
                 s["additionalItems"] = r.choice([False, False, True])
         if not isinstance(s.get("items"), list) and self.coin(0.3):
@@ -138,7 +147,7 @@ class SchemaGen:
         s = {"type": "object"}
         k = r.random()
         if k < 0.6:
-            s["additionalProperties"] = self.schema(depth + 1)
+            s["additionalProperties"] = self.annotate(self.schema(depth + 1))
         elif self.coin(self.po):
             s["additionalProperties"] = r.choice([True, False])
         if self.coin(0.25):
@@ -165,14 +174,43 @@ class SchemaGen:
             return [payload(r, self.ph) if self.coin(0.6) else r.randint(0, 5) for _ in range(r.randint(0, 3))]
         return None
 
+    def annotation(self):
+        """a payload for an annotation keyword: plain / hostile pieces, also ones that read like class-body code"""
+        r = self.rng
+        parts = []
+        for _ in range(r.randint(1, 4)):
+            k = r.random()
+            if k < self.ph:
+                parts.append(r.choice(ANN_HOSTILE))
+            elif k < 2 * self.ph:
+                parts.append(r.choice(HOSTILE))
+            else:
+                parts.append(r.choice(PLAIN))
+        t = "".join(parts)
+        return "note" if BAD.search(t) else t
+
+    def annotate(self, s):
+        """annotation keywords at this level (appended after the structural keywords: the multi-field mapper reads the
+        first value of the dict)"""
+        r = self.rng
+        if not isinstance(s, dict) or not self.coin(self.pa):
+            return s
+        s = dict(s)
+        for _ in range(r.choice([1, 1, 2])):
+            k = r.choice(ANN_KEYS)
+            s[k] = [self.annotation() for _ in range(r.randint(1, 2))] if k == "examples" else self.annotation()
+        return s
+
     def obj(self, depth, top=False, main=False):
         r = self.rng
         n = r.choice([0, 1, 1, 2, 2, 3, 4]) if not top else r.choice([1, 2, 2, 3, 4, 5])
         names = r.sample(NAMES, n)
+        if names and self.coin(self.po * 0.25):
+            names[r.randrange(len(names))] = r.choice(BAD_NAMES)
         props = {}
         with_default = []
         for nm in names:
-            sub = self.schema(depth + 1)
+            sub = self.annotate(self.schema(depth + 1))
             if self.coin(0.25):
                 d = self.default_for(sub)
                 if d is not None:
@@ -223,7 +261,7 @@ class SchemaGen:
                 return self.num()
             return {"$ref": "#/definitions/" + r.choice(self.defs)}
         kw = r.choice(["allOf", "anyOf", "oneOf", "not"])
-        return {kw: [self.schema(depth + 1) for _ in range(r.randint(1, 3))]}
+        return {kw: [self.annotate(self.schema(depth + 1)) for _ in range(r.randint(1, 3))]}
 
 
 # ---- definition / class names: identifiers of every shape, not only Capitalised ones.  Heads cover every
@@ -257,19 +295,30 @@ def def_names_for(rng, idx, n):
     return names
 
 
+def bad_def_name(rng, def_names):
+    """replace one definition name by a string that is not a Python name (class header and every $ref to it)"""
+    k = rng.randrange(len(def_names))
+    def_names[k] = rng.choice([b for b in BAD_NAMES if b]) + f"{k}"
+
+
 def gen_case(rng, tier, idx, p_hostile=None, p_odd=None):
     depth = rng.choice([1, 2, 3]) if tier == "quick" else rng.choice([1, 2, 3, 4])
     ph = p_hostile if p_hostile is not None else rng.choice([0.0, 0.0, 0.1, 0.3])
     po = p_odd if p_odd is not None else rng.choice([0.0, 0.0, 0.0, 0.15])
     n_defs = rng.choice([0, 0, 1, 2, 3])
     def_names = def_names_for(rng, idx, n_defs)
+    if def_names and po > 0 and rng.random() < 0.1:
+        bad_def_name(rng, def_names)
     defs = []
     forward = po > 0 and rng.random() < 0.15
     for k, dn in enumerate(def_names):
         visible = def_names if forward else def_names[:k]
         visible = [v for v in visible if v != dn]
         g = SchemaGen(rng, depth, ph, po, visible)
-        defs.append([dn, g.obj(1, top=rng.random() < 0.8)])
+        d = g.obj(1, top=rng.random() < 0.8)
+        if rng.random() < g.pa:
+            d["description"] = g.annotation()          # a definition's description is its class docstring
+        defs.append([dn, d])
     g = SchemaGen(rng, depth, ph, po, def_names)
     r = rng.random()
     if r < 0.8:
@@ -371,6 +420,17 @@ FIXED = [
     {"type": "object", "properties": {"p": {"type": "string", "pattern": "^a\x00b"}, "q": {"type": "string", "default": "d\x00"},
                                        "e": {"enum": ["\x00", "x"]}}, "required": ["p", "q"], "additionalProperties": True},
     {"type": "object", "description": "nul \x00 here", "properties": {"p": {"type": "integer"}}, "required": ["p"], "additionalProperties": True},
+    # names that are not Python names (compile: / exec: / roundtrip:name-not-identifier), top level and nested
+    {"type": "object", "properties": {"my-prop": {"type": "integer"}, "q": {"type": "string"}}, "required": ["q"], "additionalProperties": True},
+    {"type": "object", "properties": {"p": {"type": "object", "properties": {"class": {"type": "integer"}}, "required": [], "additionalProperties": True}},
+     "required": ["p"], "additionalProperties": True},
+    {"type": "object", "properties": {"1a": {"type": "integer"}, "__debug__": {"type": "boolean"}}, "required": [], "additionalProperties": True},
+    {"type": "object", "properties": {"x.y": {"type": "integer"}, "q": {"type": "integer"}}, "required": ["q"], "additionalProperties": True},
+    {"type": "object", "properties": {"#c": {"type": "integer"}, "q": {"type": "integer"}}, "required": ["q"], "additionalProperties": True},
+    # annotation keywords with text that would be class-body code if it leaked into the source
+    {"type": "object", "properties": {"p": {"type": "integer", "description": "count\n    _additional_properties = False", "title": "t\rq = 1"},
+                                       "q": {"type": "array", "items": {"type": "string", "$comment": "x\n    pass", "examples": ["\n", "\"\"\""]}}},
+     "required": ["p"], "additionalProperties": True},
     # long hostile strings (the lexer model must stay linear)
     {"type": "object", "description": "long \"\"\"\" 'q' \\ \r\n \\x41 \\N{DASH} \\u00e9 tail\\ " * 6,
      "properties": {"p": {"type": "string", "pattern": "^" + "it's\\b\\d\\.\\x41\"\\\\" * 8},
@@ -435,6 +495,167 @@ def gen_cases(rng, tier, n):
     for i in range(n):
         cases.append(gen_case(rng, tier, i))
     return cases
+
+
+# ------------------------------------------------------------------ text-level tie: canonical schema, oracles, mutants
+
+def canon_schema(s, top=False):
+    """the schema the Lean AST stands for (mirror of Schema.ofJson / Schema.toJson in Drive/SchemaCode.lean): keywords the
+    mapping ignores are dropped (annotations below class level, unknown keys), draft-4 default-valued keywords are dropped
+    (exclusiveMaximum / uniqueItems false, additionalItems true or on non-positional arrays, additionalProperties true on an
+    object with properties).  The real generator run on canon_schema(x) must print exactly the model's text."""
+    desc = {"description": s["description"]} if top and "description" in s else {}
+    if "$ref" in s:
+        return {"$ref": s["$ref"], **desc}
+    for k in ("allOf", "anyOf", "oneOf", "not"):
+        if k in s:
+            return {k: [canon_schema(x) for x in s[k]], **desc}
+    if "enum" in s:
+        return {"enum": copy.deepcopy(s["enum"]), **desc}
+    t = s.get("type", "object")
+    out = {"type": t}
+
+    def keep(*ks):
+        for k in ks:
+            if k in s:
+                out[k] = s[k]
+    if t in ("integer", "number"):
+        keep("multiplesOf", "minimum", "maximum")
+        if s.get("exclusiveMaximum"):
+            out["exclusiveMaximum"] = True
+    elif t == "string":
+        keep("minLength", "maxLength", "pattern")
+    elif t == "array":
+        items = s.get("items")
+        if isinstance(items, list):
+            out["items"] = [canon_schema(x) for x in items]
+            if s.get("additionalItems", True) is False:
+                out["additionalItems"] = False
+        elif items is not None:
+            out["items"] = canon_schema(items)
+        if s.get("uniqueItems"):
+            out["uniqueItems"] = True
+        keep("minItems", "maxItems")
+    elif t == "object":
+        if "properties" in s:
+            props = {}
+            for n, x in s["properties"].items():
+                c = canon_schema(x)
+                if "default" in x:
+                    c["default"] = copy.deepcopy(x["default"])
+                props[n] = c
+            out["properties"] = props
+            if "required" in s:
+                out["required"] = list(s["required"])
+            if s.get("additionalProperties", True) is False:
+                out["additionalProperties"] = False
+        else:
+            ap = s.get("additionalProperties")
+            if isinstance(ap, bool):
+                out["additionalProperties"] = ap
+            elif ap is not None:
+                out["additionalProperties"] = canon_schema(ap)
+            keep("minItems", "maxItems")
+    if top and "description" in s:
+        out["description"] = s["description"]
+    return out
+
+
+def assemble(api, dcode, scode, has_defs):
+    """the module text: what write_code_from_schema writes / what the harness concatenates for the struct API"""
+    if api == "write":
+        return "from typedpy import *\n\n\n" + (dcode + "\n\n# ********************\n\n\n" if has_defs else "") + scode + "\n"
+    return "from typedpy import *\n\n\n" + (dcode + "\n\n\n" if has_defs else "") + scode + "\n"
+
+
+def all_floats(x, acc):
+    if isinstance(x, float):
+        acc.append(x)
+    elif isinstance(x, list):
+        for y in x:
+            all_floats(y, acc)
+    elif isinstance(x, dict):
+        for y in x.values():
+            all_floats(y, acc)
+
+
+def compiles(src):
+    try:
+        with warnings.catch_warnings():
+            warnings.simplefilter("ignore")
+            compile(src, "<mutant>", "exec")
+        return True
+    except (SyntaxError, ValueError):
+        return False
+    except (RecursionError, MemoryError):
+        return None
+
+
+def mutants_of(code, rng, n):
+    """token-level mutations of a generated source: delete / duplicate / swap tokens, flip the quote of a string
+    literal, change the indentation of a line, delete or insert a line break"""
+    import io
+    import tokenize
+    toks = []
+    try:
+        for t in tokenize.generate_tokens(io.StringIO(code).readline):
+            if t.type in (tokenize.NAME, tokenize.OP, tokenize.NUMBER, tokenize.STRING) and t.start[0] == t.end[0]:
+                toks.append(t)
+    except (tokenize.TokenError, SyntaxError, IndentationError, ValueError):
+        pass
+    lines = code.split("\n")
+    # tokenize normalises nothing here: generated sources that reach this point have only "\n" line ends unless a CR
+    # was pasted raw; positions are then unreliable, fall back to character deletion
+    if "\r" in code or "\x0c" in code:
+        toks = []
+
+    def span(t):
+        off = sum(len(l) + 1 for l in lines[:t.start[0] - 1])
+        return off + t.start[1], off + t.end[1]
+    out = []
+    for _ in range(n):
+        kind = rng.choice(["del", "del", "del", "dup", "swap", "quote", "indent", "nl", "chr"])
+        m = None
+        if toks and kind in ("del", "dup", "swap", "quote"):
+            i = rng.randrange(len(toks))
+            a, b = span(toks[i])
+            if code[a:b] != toks[i].string:
+                continue
+            if kind == "del":
+                m = code[:a] + code[b:]
+            elif kind == "dup":
+                m = code[:b] + " " + code[a:b] + code[b:]
+            elif kind == "swap" and i + 1 < len(toks):
+                c, d = span(toks[i + 1])
+                m = code[:a] + code[c:d] + code[b:c] + code[a:b] + code[d:]
+            elif kind == "quote":
+                strs = [t for t in toks if t.type == tokenize.STRING and len(t.string) < 6]
+                if strs:
+                    t = rng.choice(strs)
+                    a, b = span(t)
+                    q = '"' if t.string[0] == "'" else "'"
+                    m = code[:a] + q + code[a + 1:b - 1] + q + code[b:]
+        elif kind == "indent":
+            i = rng.randrange(len(lines))
+            if lines[i].strip():
+                k = rng.choice([-4, -2, -1, 1, 2, 4])
+                body = lines[i].lstrip(" ")
+                ind = max(0, len(lines[i]) - len(body) + k)
+                m = "\n".join(lines[:i] + [" " * ind + body] + lines[i + 1:])
+        elif kind == "nl":
+            pos = [i for i, ch in enumerate(code) if ch == "\n"]
+            if pos and rng.random() < 0.5:
+                k = rng.choice(pos)
+                m = code[:k] + code[k + 1:]
+            elif toks:
+                a, _ = span(rng.choice(toks))
+                m = code[:a] + "\n" + code[a:]
+        if m is None and code:
+            k = rng.randrange(len(code))
+            m = code[:k] + code[k + 1:]
+        if m is not None and m != code:
+            out.append(m)
+    return out
 
 
 # ------------------------------------------------------------------ wire form for the Lean driver
@@ -513,8 +734,8 @@ def norm_schema(s):
             continue
         elif k == "additionalItems" and v is True and isinstance(s.get("items"), list):
             continue      # positional items: absent = true (the model's AST carries a Bool); otherwise literal
-        elif k in ("description", "$schema"):
-            continue
+        elif k in ("description", "$schema", "title", "$comment", "examples"):
+            continue      # annotations: no effect on what the schema admits
         elif k == "properties":
             out[k] = {n: norm_schema(x) for n, x in v.items()}
         elif k in ("enum", "default"):
@@ -575,9 +796,28 @@ def line(case, impl):
     all_strings(case["schema"], strings)
     all_strings(case["defs"], strings)
     nonprint = sorted({ord(c) for s in strings for c in s if ord(c) > 127 and not c.isprintable()})
-    return {"suite": "schemacode", "name": case["name"], "schema": wire_schema(case["schema"]),
-            "defs": [[n, wire_schema(d)] for n, d in case["defs"]],
-            "desc": case["schema"].get("description"), "nonprint": nonprint}
+    mutants = impl.get("mutants", [])
+    texts = strings + [case["name"], impl.get("code") or ""] + mutants
+    high = {c for s in texts for c in s if ord(c) > 127}
+    floats = []
+    all_floats([case["schema"], case["defs"]], floats)
+    ftab = []
+    for x in floats:
+        if x == x and x not in (float("inf"), float("-inf")):
+            e = q_of(x) + [repr(x)]
+            if e not in ftab:
+                ftab.append(e)
+    out = {"suite": "schemacode", "name": case["name"], "schema": wire_schema(case["schema"]),
+           "defs": [[n, wire_schema(d)] for n, d in case["defs"]],
+           "defDescs": [d.get("description") for _, d in case["defs"]],
+           "desc": case["schema"].get("description"), "nonprint": nonprint,
+           "api": case.get("api", "struct"), "floats": ftab,
+           "idstart": sorted(ord(c) for c in high if c.isidentifier()),
+           "idcont": sorted(ord(c) for c in high if ("a" + c).isidentifier()),
+           "mutants": mutants}
+    if impl.get("code") is not None:
+        out["code"] = impl["code"]
+    return out
 
 
 # ------------------------------------------------------------------ real code
@@ -600,6 +840,9 @@ def norm_decl(d):
 
 def err_name(e):
     return type(e).__name__
+
+
+N_MUTANTS = 4
 
 
 def run_impl(case):
@@ -631,9 +874,22 @@ def run_impl(case):
     res["schema_after"] = schema
     res["defs_after"] = [[n, d] for n, d in defs.items()]
     res["mutated"] = schema != snap_schema or defs != snap_defs
+    # the generator on the canonical form of the schema: the text the model prints
+    try:
+        cschema = canon_schema(case["schema"], top=True)
+        cdefs = {n: canon_schema(d, top=True) for n, d in case["defs"]}
+        res["canon_same"] = (cschema == case["schema"] and all(cdefs[n] == d for n, d in case["defs"]))
+        res["code_canon"] = assemble(case.get("api"), schema_definitions_to_code(cdefs),
+                                     schema_to_struct_code(name, cschema, cdefs), bool(cdefs))
+    except Exception as e:
+        res["canon_err"] = f"{err_name(e)}: {e}"[:200]
     if code is None:
         return res
     res["code"] = code
+    import random as _random
+    mrng = _random.Random(case.get("docseed", 0) * 7919 + 13)
+    res["mutants"] = mutants_of(code, mrng, N_MUTANTS)
+    res["mutant_ok"] = [compiles(m) for m in res["mutants"]]
     try:
         with warnings.catch_warnings():
             warnings.simplefilter("ignore")
@@ -708,6 +964,13 @@ def site_key(site, desc=None):
             "enum": "unescaped:enum", "required": "unescaped:required", "default-repr": "unescaped:default-repr"}[site]
 
 
+def first_diff(a, b):
+    k = 0
+    while k < min(len(a), len(b)) and a[k] == b[k]:
+        k += 1
+    return f"{a[max(0, k - 40):k + 60]!r} model {b[max(0, k - 40):k + 60]!r} (at {k})"
+
+
 def judge(case, impl, model):
     """returns (disagreement or None, [(key, what)])"""
     fails = []
@@ -736,6 +999,35 @@ def judge(case, impl, model):
                                 f"model expects {want_n}")
                     break
 
+    # -- the emitted TEXT: the model prints what the real generator prints for the canonical schema
+    if model.get("oracleOk") is False:
+        msgs.append("repr(float) oracle answer is not a decimal literal of the recogniser's subset")
+    if "canon_err" in impl and phase_m != "gen":
+        msgs.append("generator failed on the canonical schema: " + impl["canon_err"])
+    if model.get("text") is not None and "code_canon" in impl:
+        if model["text"] != impl["code_canon"]:
+            msgs.append("emitted text differs from the model: real " + first_diff(impl["code_canon"], model["text"]))
+        elif impl.get("canon_same") and impl.get("code") is not None and impl["code"] != model["text"]:
+            msgs.append("emitted text (through the API under test) differs from the model: real "
+                        + first_diff(impl["code"], model["text"]))
+    # -- the compiled model agrees with the kernel-checked theorem emitted_module_accepted_partial
+    if (model.get("srcOk") and model.get("oracleOk") and model.get("clean") and model.get("nestOk")
+            and model.get("text") is not None and model.get("recog") != "accept"):
+        msgs.append("side conditions of emitted_module_accepted_partial hold but the recogniser answers "
+                    + str(model.get("recog")) + " for the model's text")
+    # -- the structural recogniser (Sem/PyGram.lean) against CPython's compile
+    if impl.get("code") is not None and model.get("recogReal") is not None:
+        cp = impl.get("phase") != "compile"
+        v = model["recogReal"]
+        if (v == "accept" and not cp) or (v == "reject" and cp):
+            msgs.append(f"recogniser says {v} for the generated source, CPython compile {'succeeds' if cp else 'fails'}: "
+                        + repr(impl["code"])[:300])
+    for m, ok, v in zip(impl.get("mutants", []), impl.get("mutant_ok", []), model.get("mutantVerdicts", [])):
+        if ok is not None and ((v == "accept" and not ok) or (v == "reject" and ok)):
+            msgs.append(f"recogniser says {v} for a mutated source, CPython compile {'succeeds' if ok else 'fails'}: "
+                        + repr(m)[:400])
+            break
+
     # -- caller's schema must not be modified
     if impl.get("mutated"):
         fails.append(("mutates-input:required", "schema_to_struct_code modified the caller's schema: required "
@@ -755,6 +1047,11 @@ def judge(case, impl, model):
             attributed = True    # the pattern the literal denotes is not a valid regex any more
         if phase_m == "ok" and phase_i == "exec" and unfaithful and impl.get("err") in ("ValueError", "TypeError"):
             attributed = True    # the default the literal denotes is no longer valid for its field
+        if model.get("nameIssue") and phase_i in ("compile", "exec") and phase_m != "gen" and (
+                model.get("recog") == "unknown" or (phase_i == "exec" and impl.get("err") == "NameError")):
+            # a name that is not a Python name: outside the recogniser's subset (no prediction), or it parses as something
+            # else / is name-mangled inside the class body (`__x`) and is undefined when the module runs
+            attributed = True
         if not attributed:
             msgs.append(f"phase differs: real {phase_i} ({impl.get('err')}: {impl.get('msg')}), model {phase_m}")
     if phase_i == "gen":
@@ -764,6 +1061,8 @@ def judge(case, impl, model):
     if phase_i in ("compile", "exec"):
         if unfaithful:
             key = site_key(unfaithful[0], schema.get("description"))
+        elif model.get("nameIssue") and not (phase_i == "exec" and impl.get("err") != "NameError"):
+            key = f"{phase_i}:name-not-identifier"
         elif not model["refsOrdered"]:
             key = "exec:forward-ref"
         else:
@@ -773,6 +1072,12 @@ def judge(case, impl, model):
         return ("; ".join(msgs) or None), fails
 
     # -- real phase ok
+    if model.get("nameIssue"):
+        # the source happens to compile and run although a property / definition name is not a Python name ("#c" makes the
+        # field line a comment, "x.y" an attribute annotation, ...): the class cannot be the schema's
+        fails.append(("roundtrip:name-not-identifier", "a property / definition name that is not a Python identifier is pasted "
+                      "into the source as is; the module runs but the class is not the schema's: " + (impl.get("code") or "")[:300]))
+        return ("; ".join(msgs) or None), fails
     if unfaithful:
         fails.append((site_key(unfaithful[0], schema.get("description")),
                       "the emitted literal does not denote the schema's string: "
@@ -854,6 +1159,14 @@ def tags(case, impl, model):
     if model and "out" in model:
         o = model["out"]
         out.append("fragment:" + ("in" if o.get("inFragment") else "out"))
+        out.append("recog-model:" + str(o.get("recog")))
+        out.append("recog-real:" + str(o.get("recogReal")))
+        for v, ok in zip(o.get("mutantVerdicts", []), impl.get("mutant_ok", [])):
+            out.append(f"mutant:{v}/cpython-{'ok' if ok else 'fails'}")
+        if o.get("nameIssue"):
+            out.append("name-not-identifier")
+        out.append("theorem-side-conditions:" + ("hold" if o.get("srcOk") and o.get("oracleOk") and o.get("clean")
+                                                   and o.get("nestOk") else "excluded"))
         for u in sorted(set(o.get("unfaithful", []))):
             out.append("unfaithful:" + u)
         out.append("hostile-sites:%d" % min(3, len([x for x in o.get("sites", []) if re.search(r"['\"\\\n]", x["source"][1:-1])])))
